@@ -316,8 +316,8 @@ def touched(post_ops, diff):
             return True
         if field == "keys" and k in ("set", "del", "rename", "newsub") and list(op[1]) == comps:
             return True
-        if field in ("values", "dtype", "shape", "kind", "value") and k in ("set", "newsub", "del", "rename"):
-            # the entry at [path] (or an ancestor of it) was rebound
+        if k in ("set", "newsub", "del", "rename"):
+            # the entry at [path] or an ancestor of it was rebound: everything below it (keys, values, metadata) is newer than the snapshot
             tgt = list(op[1]) + [op[2]]
             if comps[:len(tgt)] == tgt or (k == "rename" and comps[:len(tgt)] == list(op[1]) + [op[3]]):
                 return True
@@ -363,6 +363,9 @@ def applicable(fmt, opt, td, o):
         if lazy or njt:
             return False
         if opt.get("mode") == "flat":
+            # (flatten_keys of a NAMED tensordict with a nested one of higher batch rank raises in refine_names: C01's subject)
+            if o.get("names") and deeper_rank(o, len(o["bs"])):
+                return False
             return not any("." in k for k in all_keys(o))
         if opt.get("mode") == "assign":
             # loading into an EMPTY tensordict cannot re-create tensorclass entries (nothing says which class they had)
@@ -374,6 +377,14 @@ def applicable(fmt, opt, td, o):
         # jagged leaves are expanded by the pytree machinery itself; flatten_with_keys of a lazy stack is declared unimplemented
         return not njt and not (lazy and opt.get("mode") == "keys")
     return True
+
+
+def deeper_rank(o, rank):
+    if isinstance(o, list):
+        return False
+    if "members" in o:
+        return True
+    return len(o["bs"]) > rank or any(deeper_rank(v, rank) for v in o["ents"].values())
 
 
 def all_keys(o):
